@@ -72,6 +72,7 @@ type Expression interface {
 
 type Program struct {
 	Statements []Statement
+	EOF        token.Token // the end-of-input token; carries the comments after the last statement
 }
 
 func (p *Program) WriteTo(cw *CodeWriter) {
@@ -82,6 +83,8 @@ func (p *Program) WriteTo(cw *CodeWriter) {
 		}
 		stmt.WriteTo(cw)
 	}
+	// comments between the last statement and the end of the input
+	cw.WriteLeadingComments(p.EOF.LeadingComments)
 }
 
 // writeGuardSemicolon: with optional semicolons omitted, a statement that
